@@ -26,8 +26,31 @@ TECHNIQUE = "static analysis: def-use transparency rules on MIR, who-may-call, p
 TRIVIA_EXPECTED = {'Space', 'CommentLine', 'CommentBlock'}   # frozen: the three token kinds whose patterns are whitespace / comments
 
 
+def binding_merges_annotations(c, facts, R):
+    """a parameter occurrence evaluates to the argument's value with the argument's annotations extended by those written
+    at the occurrence (so wrapping an expression in a single-use function keeps every annotation)"""
+    eb = c.anchor(R, 'oal_compiler::eval::eval_binding')
+    idx = MF.defs_index(eb)
+    ok = False
+    for b, t in P.call_blocks(eb, 'annotation::Annotation::extend'):
+        if len(t['args']) < 2 or 'l' not in t['args'][0] or 'l' not in t['args'][1]:
+            continue
+        recv = MF.slice_back(eb, t['args'][0]['l'], idx)
+        arg = MF.slice_back(eb, t['args'][1]['l'], idx)
+        from_binding = any(P.strip(n).endswith('Context::lookup_binding') for n, _, _ in recv['calls'])
+        from_site = 3 in arg['args']
+        if from_binding and from_site and not any(P.strip(n).endswith('Context::lookup_binding') for n, _, _ in arg['calls']):
+            ok = True
+    ret = MF.slice_back(eb, 0, idx)
+    if ok and any(P.strip(n).endswith('Rc::new') or P.strip(n).endswith('AnnRef::new') for n, _, _ in ret['calls']):
+        c.ok(R, {'eval_binding': 'argument annotations extended by the annotations at the occurrence'})
+    else:
+        c.bad(R, 'eval_binding:annotations-not-merged', 'eval_binding no longer returns the argument\'s annotations extended by those of the occurrence: turning an annotated expression into the argument of a single-use function drops annotations')
+
+
 def r1_transparent(c, facts):
     R = c.rule('C05.R1', 'TRANSPARENT: parentheses, terminals and plain declarations forward value and annotations')
+    c.run(lambda c: binding_merges_annotations(c, facts, R))
     se = c.anchor(R, 'oal_compiler::eval::eval_subexpression')
     idx = MF.defs_index(se)
     calls = [(b, t) for b, t in se.calls() if callee_of(t) and not P.strip(callee_of(t)['def']).endswith('SubExpression::inner')]
